@@ -16,6 +16,8 @@ var nestedPrefixGroups = [][][2]string{
 	{{"keys", "k_"}, {"sort", "k_s"}},
 	{{"hash", "deriveH"}, {"clone", "deriveHC"}},
 	{{"fmap", "fm"}, {"filter", "fmf"}},
+	{{"union", "merge"}, {"intersect", "mergeCommon"}},
+	{{"curry", "part"}, {"uncurry", "partial"}},
 }
 
 var flatOverrides = [][2]string{
@@ -44,6 +46,10 @@ func (w *World) DrawPrefixes(t *tape.Tape) {
 	w.Prefix = map[string]string{}
 	if t.Bool() {
 		g := nestedPrefixGroups[t.Intn(len(nestedPrefixGroups))]
+		if w.NestedGroup > 0 && t.Chance(2, 3) {
+			// the group whose plugins the package calls side by side (nestedGroupCalls)
+			g = nestedPrefixGroups[(w.NestedGroup-1)%len(nestedPrefixGroups)]
+		}
 		for _, kv := range g {
 			w.Prefix[kv[0]] = kv[1]
 		}
